@@ -9,7 +9,7 @@ from vlib.harness import CheckBase, Verdict
 
 COMMANDS = [["cat"], ["info", "#.*"], ["type", "--binary", "NAME"], ["dump", "NAME"], ["list", "NAME"],
             ["dump-sector", "0", "1", "2"], ["free"], ["space"], ["sector-map"], ["show-titles"], ["help"],
-            ["cat", "0"], ["extract-unused", "OUT"]]
+            ["cat", "0"], ["extract-unused", "OUT"], ["info", "*"], ["type", "--binary", "UNQ"], ["list", "UNQ"]]
 COLS = [None, "1", "20", "39", "40", "79", "80", "200", "abc", "1000000000000000000000000000000", "0", "-5"]
 UIS = [None, "acorn", "watford", "opus"]
 
@@ -22,6 +22,10 @@ def case_st(draw):
     img["gz"] = draw(st.sampled_from([0, 0, 0, 1]))
     return {"image": img, "cmds": draw(st.lists(st.integers(0, len(COMMANDS) - 1), min_size=2, max_size=4, unique=True)),
             "cols": draw(st.sampled_from(COLS)), "ui": draw(st.sampled_from(UIS)),
+            # other global options on the same command line, and where the option under test goes among them
+            "drive": draw(st.sampled_from([None, None, "0", "2", "1"])),
+            "dir": draw(st.sampled_from([None, None, "ENTRY", "ENTRY", "B", "$"])),
+            "order": draw(st.integers(0, 5)), "pos": draw(st.integers(0, 3)),
             "seed": draw(st.integers(0, 10 ** 6))}
 
 
@@ -50,7 +54,8 @@ class C18(CheckBase):
     level = "exploration"
     variants = ("dbg", "asan")
     rule = ("generated images of every container (valid, flux, and structure-mutated / hostile, plain or .gz) x 2-4 of "
-            "13 command lines x {--verbose, --show-config, both; placed before or after --file} compared with the "
+            "16 command lines, accompanied by optional --drive / --dir options in a drawn order, x {--verbose, "
+            "--show-config, both; inserted at a drawn position among the other options} compared with the "
             "run without the option: stdout bytes and exit status must be equal, --verbose must add stderr text on a "
             "valid image, a repeated run must be identical.  --ui acorn|watford|opus and COLUMNS in {unset, 1, 20, "
             "39, 40, 79, 80, 200, abc, 10^30, 0, -5} with stdout on a pipe and on a pseudo-terminal: for `cat` the "
@@ -89,11 +94,26 @@ class C18(CheckBase):
             data = c07.compress_image(ic, data)
             name += ".gz"
         nm = "F"
+        unq = "F"
+        entry_dir = "$"
         try:
-            e = disc.all_entries(ic["surface"]["volumes"][0])[0]
+            ents = disc.all_entries(ic["surface"]["volumes"][0])
+            e = ents[0]
             nm = ":0.%s.%s" % (chr(e["dir"]), e["name"].decode("latin-1"))
+            e2 = ents[case["seed"] % len(ents)]
+            unq = e2["name"].decode("latin-1")
+            entry_dir = chr(e2["dir"])
         except (IndexError, KeyError):
             pass
+        # the global options that accompany the option under test: --file plus optional --drive / --dir, in a drawn
+        # order; the option under test is inserted at a drawn position among them
+        groups = []
+        if case.get("drive") is not None:
+            groups.append(["--drive", case["drive"]])
+        if case.get("dir") is not None:
+            groups.append(["--dir", entry_dir if case["dir"] == "ENTRY" else case["dir"]])
+        if groups:
+            v.classes.append("with-drive/dir-options")
         if ic["ext"] in ("hfe", "mfm"):
             v.nontrivial = True
             v.classes.append("flux")
@@ -106,16 +126,26 @@ class C18(CheckBase):
             img = sb.file(name, data)
             for ci in case["cmds"]:
                 out = sb.mkdir("out%d" % ci)
-                cmd = [out if a == "OUT" else (nm if a == "NAME" else a) for a in COMMANDS[ci]]
-                base = runtool.run([dfs, "--file", img] + cmd, sb.path)
+                cmd = [out if a == "OUT" else (nm if a == "NAME" else (unq if a == "UNQ" else a)) for a in COMMANDS[ci]]
+                gl = groups + [["--file", img]]
+                k = case.get("order", 0) % len(gl)
+                gl = gl[k:] + gl[:k]
+                if case.get("order", 0) >= 3:
+                    gl.reverse()
+
+                def line(opts, where=None):
+                    """global options with `opts` inserted at position `where` (default: the drawn one)"""
+                    w = (case.get("pos", 0) if where is None else where) % (len(gl) + 1)
+                    return [a for g in gl[:w] for a in g] + list(opts) + [a for g in gl[w:] for a in g]
+                base = runtool.run([dfs] + line([]) + cmd, sb.path)
                 v.evaluations += 1
                 if base.signal is not None or base.timed_out:
                     v.skipped = "baseline-crashed"       # C07's business
                     continue
-                variants = [(["--verbose", "--file", img], "verbose-before"), (["--file", img, "--verbose"], "verbose-after"),
-                            (["--show-config", "--file", img], "show-config"),
-                            (["--verbose", "--show-config", "--file", img], "both"),
-                            (["--file", img], "repeat")]
+                variants = [(line(["--verbose"], 0), "verbose-before"), (line(["--verbose"], len(gl)), "verbose-after"),
+                            (line(["--show-config"]), "show-config"),
+                            (line(["--verbose", "--show-config"]), "both"),
+                            (line([]), "repeat")]
                 for pre, label in variants:
                     r = runtool.run([dfs] + pre + cmd, sb.path)
                     v.evaluations += 1
@@ -137,7 +167,7 @@ class C18(CheckBase):
                 env = {"COLUMNS": cols} if cols is not None else None
                 uiopt = ["--ui", ui] if ui else []
                 for mode in ("pipe", "pty"):
-                    argv = [dfs] + uiopt + ["--file", img] + cmd
+                    argv = [dfs] + line(uiopt) + cmd
                     if mode == "pipe":
                         r = runtool.run(argv, sb.path, env_extra=env)
                     else:
